@@ -3,10 +3,12 @@
 package c16
 
 import (
+	"encoding/hex"
 	"fmt"
 	"os"
 	"path/filepath"
 	"reflect"
+	"regexp"
 	"strconv"
 	"strings"
 	"testing"
@@ -14,7 +16,7 @@ import (
 	"verifharness/internal/ev"
 )
 
-var fuzzTargets = []*target{tgIface, tgRich, tgOpt, tgRec, staticTargets[22] /* rawS */, tgRaw, tgU64, tgBigV, tgBytes, staticTargets[15] /* [][]byte */}
+var fuzzTargets = []*target{tgIface, tgRich, tgOpt, tgRec, staticTargets[22] /* rawS */, tgRaw, tgU64, tgBigV, tgBytes, staticTargets[15] /* [][]byte */, staticTargets[30] /* privT */}
 
 // fuzzOne judges one byte string. Allocation is measured once around a first pass over every product entry point
 // (the per-call measurement of the rapid tests would cost ~20 stop-the-world pauses per input).
@@ -29,7 +31,7 @@ func fuzzOne(t ev.TB, b []byte) {
 	ev.Guard(t, ct, func() {
 		delta = allocDeltaAlways(func() {
 			for _, tg := range fuzzTargets {
-				kDecode(t, ct, tg.d.rtype(flK), b)
+				kDecode(t, ct, tg, b)
 			}
 			checkStreams(t, b, 64)
 		})
@@ -44,6 +46,7 @@ func fuzzOne(t ev.TB, b []byte) {
 		}
 	}
 	checkRawHelpers(t, b)
+	checkStreamScalars(t, b)
 	cl := "fuzz-rejected-by-all"
 	if acc > 0 {
 		cl = "fuzz-accepted-by-some"
@@ -105,6 +108,19 @@ func (recordTB) Fatalf(format string, args ...interface{}) { panic(recordStop{})
 // into testdata/fuzz/FuzzDecode, so that a violation found by a worker is recorded by ev (key, message, case) in
 // the coordinator's evidence file. The driver reads violations only from there.
 func replayCrashers() {
+	judge := func(name string, b []byte) {
+		defer func() {
+			if r := recover(); r != nil {
+				if _, ok := r.(recordStop); !ok {
+					fmt.Printf("replayCrashers: %s: panic outside the oracle: %v\n", name, r)
+				}
+			}
+		}()
+		fuzzOne(recordTB{}, b)
+	}
+	for i, s := range fuzzSeeds() { // a failing f.Add seed is reported by the engine without a file
+		judge(fmt.Sprintf("seed#%d", i), s)
+	}
 	dir := filepath.Join("testdata", "fuzz", "FuzzDecode")
 	ents, err := os.ReadDir(dir)
 	if err != nil {
@@ -127,15 +143,30 @@ func replayCrashers() {
 		if err != nil {
 			continue
 		}
-		func() {
-			defer func() {
-				if r := recover(); r != nil {
-					if _, ok := r.(recordStop); !ok {
-						fmt.Printf("replayCrashers: %s: panic outside the oracle: %v\n", e.Name(), r)
-					}
-				}
-			}()
-			fuzzOne(recordTB{}, []byte(s))
-		}()
+		judge(e.Name(), []byte(s))
 	}
 }
+
+// TestReplay re-judges the byte string recorded in a crash report (VERIF_REPLAY_FILE, written by the driver when a
+// shard died): the last "input=<hex>" of the file is run through the fuzz oracle (all hand-written targets).
+func TestReplay(t *testing.T) {
+	path := os.Getenv("VERIF_REPLAY_FILE")
+	if path == "" {
+		t.Skip("no VERIF_REPLAY_FILE")
+	}
+	raw, err := os.ReadFile(path)
+	if err != nil {
+		t.Fatalf("harness: %v", err)
+	}
+	m := replayInputRE.FindAllStringSubmatch(string(raw), -1)
+	if len(m) == 0 {
+		t.Skip("no input=<hex> in the replay file")
+	}
+	b, err := hex.DecodeString(m[len(m)-1][1])
+	if err != nil {
+		t.Fatalf("harness: %v", err)
+	}
+	fuzzOne(t, b)
+}
+
+var replayInputRE = regexp.MustCompile(`input=([0-9a-f]*)`)
